@@ -43,6 +43,14 @@ func diskDir() string {
 	return d
 }
 
+func encOver(b filesystem.Filespace) filesystem.Filespace {
+	fs, err := encryptfs.NewEncryptFS(b, encryptfs.Settings{Secret: []byte("k"), Salt: []byte("s"), Cipher: aesgcm256cfs.NewCipher()})
+	if err != nil {
+		panic(err)
+	}
+	return fs
+}
+
 func newBackend(kind string) (filesystem.Filespace, func()) {
 	enc := func(b filesystem.Filespace) filesystem.Filespace {
 		fs, err := encryptfs.NewEncryptFS(b, encryptfs.Settings{Secret: []byte("k"), Salt: []byte("s"), Cipher: aesgcm256cfs.NewCipher()})
@@ -274,6 +282,7 @@ type copyWit struct {
 	Path   string `json:"path,omitempty"`
 	Fail   []int  `json:"fail_calls,omitempty"`
 	Short  bool   `json:"short_write,omitempty"`
+	FaultBelowEnc bool `json:"fault_below_encryption,omitempty"`
 	Sched  []int  `json:"schedule,omitempty"`
 }
 
@@ -306,8 +315,28 @@ func runCopy(w copyWit, opt *explore.Options) (copyOut, *explore.Exec) {
 		for _, k := range w.Fail {
 			in.Fail[k] = true
 		}
-		src := &fsx.FaultFS{Inner: srcRaw, In: in, Tag: "src"}
-		dst := &fsx.FaultFS{Inner: dstRaw, In: in, Tag: "dst"}
+		var src, dst filesystem.Filespace = &fsx.FaultFS{Inner: srcRaw, In: in, Tag: "src"}, &fsx.FaultFS{Inner: dstRaw, In: in, Tag: "dst"}
+		if w.FaultBelowEnc {
+			// the failing layer sits UNDER the encryption: a base write that fails while the
+			// encrypted stream is being closed must surface as the helper's error
+			if strings.HasPrefix(w.Dst, "enc-") {
+				base, bdone := newBackend(strings.TrimPrefix(w.Dst, "enc-"))
+				defer bdone()
+				dstRaw = encOver(&fsx.FaultFS{Inner: base, In: in, Tag: "dstbase"})
+				dst = dstRaw
+			}
+			if strings.HasPrefix(w.Src, "enc-") {
+				base, bdone := newBackend(strings.TrimPrefix(w.Src, "enc-"))
+				defer bdone()
+				srcRaw = encOver(&fsx.FaultFS{Inner: base, In: in, Tag: "srcbase"})
+				if err := build(srcRaw, t); err != nil {
+					o.err = "harness: " + err.Error()
+					return
+				}
+				in.N, in.Log, in.Hits = 0, nil, nil
+				src = srcRaw
+			}
+		}
 		var err error
 		want := t.flat()
 		func() {
@@ -340,6 +369,13 @@ func runCopy(w copyWit, opt *explore.Options) (copyOut, *explore.Exec) {
 			o.err = err.Error()
 		}
 		o.calls, o.hits = in.N, in.Hits
+		if err != nil && len(in.Hits) > 0 {
+			// the failure was reported: nothing more is required (and an error path that leaks an
+			// open handle must not hang the verification walk)
+			o.complete = false
+			return
+		}
+		in.Fail = map[int]bool{} // verification reads must not be faulted
 		got, probs := fsx.Walk(dstRaw)
 		o.complete = fsx.FlatKey(got) == fsx.FlatKey(want) && len(probs) == 0
 		if !o.complete {
@@ -532,6 +568,28 @@ func run(c *fw.Ctx) {
 						}
 					}
 				}
+				// faults below the encryption layer (ciphertext is written when the stream is closed)
+				if strings.HasPrefix(sb, "enc-") || strings.HasPrefix(db, "enc-") {
+					wb := w
+					wb.FaultBelowEnc = true
+					ob, _ := runCopy(wb, nil)
+					for k := 1; k <= ob.calls; k++ {
+						wf := wb
+						wf.Fail = []int{k}
+						of, _ := runCopy(wf, nil)
+						c.R.Evaluations++
+						c.Count("fault_positions_below_encryption", 1)
+						if kind, clause, detail := judgeCopy(wf, of); kind != "" && kind != "harness" {
+							what := "?"
+							if len(of.hits) > 0 {
+								what = of.hits[0][strings.Index(of.hits[0], " ")+1:]
+							}
+							wfc := wf
+							report(fmt.Sprintf("C04/copy/%s/%s/fault-below-encryption-at-%s", kind, w.Helper, what), clause, fmt.Sprintf("%s of tree %d (path %q) from %s to %s, failing base call #%d of %d (fault layer below the encryption)\n%s", w.Helper, w.Tree, w.Path, sb, db, k, ob.calls, detail), map[string]interface{}{"copy": wfc},
+								func() bool { o2, _ := runCopy(wfc, nil); k2, _, _ := judgeCopy(wfc, o2); return k2 == kind })
+						}
+					}
+				}
 				// thorough: every pair of failing calls for the memory-to-memory tree copies
 				if c.Thorough() && sb == "mem" && db == "mem" && n <= 60 {
 					for k1 := 1; k1 <= n; k1++ {
@@ -662,7 +720,7 @@ func replay(wj json.RawMessage) (*fw.Violation, error) {
 
 func init() {
 	fw.Register(&fw.Check{ID: "C04", Level: "fault_enumeration",
-		Rule: "streams: backends{mem,disk,enc-mem,enc-disk,cache-mem} x contents{'', 'x', 'xyz', 5KiB} x every split into <=3 chunks (incl. empty chunks; fixed cut points for the long content) x previous destination{absent,empty,shorter,longer,equal,directory} x read buffers{1,2,3,4096}; copy helpers {fshelper.Copy, Copier.Do(dir), Copier.Do(file), StreamCopy} x 4 tree shapes x all 25 source/destination backend pairs, fault-free and with EVERY single numbered call (open/Read/Write/Close/MkdirAll/ReadDir/IsFile/IsDir/Filespace, on source and destination; error and short-write variants) failing; thorough adds every pair of failing calls (memory) and preemption bound 2 for the concurrent tree copy. distinct = cases; all run the real code",
+		Rule: "streams: backends{mem,disk,enc-mem,enc-disk,cache-mem} x contents{'', 'x', 'xyz', 5KiB} x every split into <=3 chunks (incl. empty chunks; fixed cut points for the long content) x previous destination{absent,empty,shorter,longer,equal,directory} x read buffers{1,2,3,4096}; copy helpers {fshelper.Copy, Copier.Do(dir), Copier.Do(file), StreamCopy} x 4 tree shapes x all 25 source/destination backend pairs, fault-free and with EVERY single numbered call (open/Read/Write/Close/MkdirAll/ReadDir/IsFile/IsDir/Filespace, on source and destination; error and short-write variants) failing, for encrypted backends also with the failing layer below the encryption; thorough adds every pair of failing calls (memory) and preemption bound 2 for the concurrent tree copy. distinct = cases; all run the real code",
 		Run: run, Replay: replay,
 		Assumptions: []string{"fault positions are the calls crossing the Filespace/Reader/Writer interfaces (harness-side wrapper)", "a bool query 'fails' by answering false", "fshelper.Copy runs under the controlled scheduler: default schedule for the fault sweep, bounded preemptions for the fault-free case"}})
 }
